@@ -7,7 +7,7 @@ the ORIGINAL model).  Packages: `pk` with public / private modules and sub-packa
 (list / tuple / built with `+=` / declared EMPTY as `[]`, `()` or assembled from another module's empty `__all__`),
 re-exports (also chains) from private modules, wildcard re-exports (`from m import *` in modules that declare `__all__`),
 module aliases, classes with (private / imported) bases (also two bases sharing a short name), nested classes,
-imports written inside class bodies, unresolvable (external module, dynamic
+imports written inside class bodies, `__all__`-listed re-exports written under `if TYPE_CHECKING:`, unresolvable (external module, dynamic
 name) and cyclic (name cycles, module-alias cycles) re-exports in public positions.
 Oracle: the public-frontier reference model of vp/gen/c11_model.py, computed from the generator's model with the
 documented is_public decision table — never from Griffe's output.
@@ -62,6 +62,11 @@ ASSUMPTIONS = [
     "both versions are loaded statically with the options griffe.check uses (resolve_aliases=True, resolve_external=None, allow_inspection=False)",
     "CLI clause: git 2.39 from PATH with GIT_CONFIG_GLOBAL/SYSTEM=/dev/null; check() is called in-process with cwd = repository",
     "names are unique per scope, member names never collide with sub-module names",
+    "a re-export listed in a non-empty __all__ may be written under `if TYPE_CHECKING:` (lazy-loading layout); it is public because it "
+    "is listed (is_public does not look at `runtime`), but it is not provided to wildcard importers (is_wildcard_exposed requires runtime); "
+    "names that are type-guarded and NOT listed are never generated (their publicness is not documented)",
+    "a removal is demanded only on a route whose container stays publicly reachable without the removed object and its cascade "
+    "(a module can be reached through one of its own members)",
     "an import written inside a class body is imported-but-not-exported there (docs: class-level objects are public unless private-named "
     "or imported): private under both readings in its own class; seen through a subclass the code no longer knows it was imported, "
     "so there it is treated as ambiguous (neither demanded nor forbidden)",
@@ -313,6 +318,11 @@ def analyse(case: dict) -> dict:
             # a removal is only demanded where the name really disappears: a removed override / first-in-MRO member
             # can leave another inherited member of the same name behind (then nothing was removed at that path)
             paths = [p for p in sorted(fr.via.get(r["ent"], ())) if not _name_exists(npkg, p)]
+            # ... and whose container stays publicly reachable without the removed object itself (a module can be reached
+            # through one of its own members, e.g. via a wildcard re-export of a module alias defined inside it)
+            own = frozenset(blocked | {r["ent"]} | set(r.get("cascade", ())))
+            fr_own = opkg.frontier("sure", own, frozenset(no_inherit))
+            paths = [p for p in paths if p.rsplit(".", 1)[0] in fr_own.tags]
             if not paths:
                 r["shadowed"] = True
                 continue
